@@ -116,10 +116,11 @@ def canon(a: dict, idx: dict, nexec: int) -> str:
     stages = {s["ref"]: s for s in a["stages"]}
     for ref, i in sorted(idx.items(), key=lambda p: p[1]):
         s = stages[ref]
-        b.append(" S%d %s %d%d v%d f%d [%s] b%d j%d q%d g%s e%d p%d {%s} {%s} [%s];" % (
+        b.append(" S%d %s %d%d v%d f%d [%s] b%d j%d q%d g%s e%d p%d h[%s] {%s} {%s} [%s];" % (
             i, s["status"], s["started"], s["ended"], s["version"], s["fired"],
             ",".join(str(idx[r]) for r in s["completed_branches"]), s["bypass"], s["jump_count"] or 0, s["buffered"],
             "-" if s["signal"] is None else str(signame(s["signal"])), s["has_exception"], s.get("plan_pending", 0),
+            ",".join(str(x) for x in sorted(kname(k) for k in s.get("hydrated", []) if k.startswith("k") and k[1:].isdigit())),
             kv_str(s["user_ctx"]), kv_str({k: v for k, v in s["outputs"].items() if k.startswith("k") and k[1:].isdigit()}),
             ",".join(t[0] + ("+" if t[2] else "-") for t in s["tasks"])))
     b.append(" | Q")
@@ -494,6 +495,8 @@ def run_batch(cases: list[dict], nproc: int = lib.NPROC) -> list[dict]:
 
 from harness import monitors as M  # noqa: E402
 
+REQUIRED_INVARIANTS = {"running_task_in_running_stage", "mutex", "choice", "ids"}
+
 CRASH_QUICK = ["chain3", "diamond", "multitask", "fail_terminal", "continue_on_failure", "poll", "transient2",
                "first_of", "quorum", "self_loop"]
 
@@ -631,6 +634,19 @@ def extend(ctx, res: RunResult, pid: str, extra_cases: list[dict] | None = None)
             res.disagreements.append({"engine_case": "fifo baseline", "spec": c["spec"], "first_difference": b["disagreement"]})
         for v in monitor(pid, o, b):
             res.violations.append(v)
+    # candidate invariants (premises of the engine theorems) evaluated by the oracle on every visited state
+    inv_names = ["running_task_in_running_stage", "not_started_stage", "suspended", "start_task_msg", "sequential", "one_active",
+                 "complete_stage", "ids", "started_flag", "mutex", "choice", "plan_pending", "wf_not_started"]
+    inv_fail: dict = {}
+    for (ci, ai, cl) in INV_FAILS:
+        for c in cl.split(","):
+            nm = inv_names[int(c)] if int(c) < len(inv_names) else c
+            inv_fail[nm] = inv_fail.get(nm, 0) + 1
+            if nm in REQUIRED_INVARIANTS and len(res.disagreements) < 10 and ci < len(outs):
+                res.disagreements.append({"what": f"premise `{nm}` of the engine theorems is false in a state the implementation-validated model reaches",
+                                          "spec": outs[ci]["case"]["spec"], "actions": outs[ci]["actions"][:ai + 1]})
+    res.extra["invariant_clause_failures"] = inv_fail
+    res.extra["states_checked_against_invariants"] = dist["commits_compared"]
     res.evaluations += len(outs)
     res.distinct_nontrivial += len(distinct)
     res.traces_validated += len(outs)
